@@ -856,6 +856,45 @@ def c06_oracle(sc):
     return out
 
 # ============================================================================ C07
+def two_volume_scripts(env, rng, count):
+    """directed: two volumes mounted at once, files open on both, then the open-twice / delete-while-open /
+    read-only rules on a file that sits BEHIND a file of the other volume in the open-file table (and after a close
+    has reordered the table)"""
+    hx = fsgen.hx
+    for j in range(count):
+        geo = fsgen.geometry(rng, None, ["f16_min", "f16_spc2", "f32_min"])
+        img, meta = fsgen.build_image(rng, geo, populate=1, second_partition=True)
+        path, dev = env.new_image(img, "twovol%d" % j)
+        meta = dict(meta); meta["dev0"] = dev
+        a, b = meta["slot"], meta["second"]
+        ops = ["openvol %d -> $va" % a, "openvol %d -> $vb" % b, "openroot $va -> $ra", "openroot $vb -> $rb",
+               "open $rb %s RO -> $c1" % hx("CANARY.TXT"),                 # other volume first in the table
+               "open $ra %s RWA -> $x" % hx("A.TXT"),                      # then the file under test
+               "open $ra %s RO -> $x2" % hx("A.TXT"), "open $ra %s RWT -> $x3" % hx("A.TXT"), "delete $ra %s" % hx("A.TXT"),
+               "open $ra %s RWC -> $y" % hx("NEW%d.Y" % j), "open $ra %s RWCA -> $y2" % hx("NEW%d.Y" % j), "delete $ra %s" % hx("NEW%d.Y" % j),
+               "close $c1",                                                # swap_remove reorders the table
+               "open $rb %s RO -> $c2" % hx("CANARY.TXT"),
+               "open $ra %s RO -> $x4" % hx("A.TXT"), "delete $ra %s" % hx("A.TXT"),
+               "open $rb %s RWA -> $c3" % hx("CANARY.TXT"), "delete $rb %s" % hx("CANARY.TXT"),
+               "write $x 5 1", "close $x", "close $y", "close $c2", "delete $ra %s" % hx("NEW%d.Y" % j), "iter $ra", "iter $rb"]
+        env.add_script("twovol%03d" % j, path, (3, 8, 8), ops, 5000, (), meta)
+
+def id_offset_scripts(env, rng, count):
+    """directed: handle counters that start at 0 and just below 2^32 (the wrap is inside the script)"""
+    hx = fsgen.hx
+    offs = [0, 1, 4294967294, 4294967295, 4294967293]
+    for j in range(count):
+        geo = fsgen.geometry(rng, None, ["f16_min", "f32_min"])
+        img, meta = fsgen.build_image(rng, geo, populate=1, second_partition=True)
+        path, dev = env.new_image(img, "idoff%d" % j)
+        meta = dict(meta); meta["dev0"] = dev
+        a, b = meta["slot"], meta["second"]
+        ops = ["openvol %d -> $va" % a, "openvol %d -> $vb" % b, "openroot $va -> $ra", "openroot $vb -> $rb", "opendir $ra %s -> $s" % hx("SUB"),
+               "open $ra %s RO -> $f1" % hx("A.TXT"), "open $rb %s RO -> $f2" % hx("CANARY.TXT"), "hasopen",
+               "closedir $s", "close $f1", "opendir $ra %s -> $s2" % hx("SUB"), "open $ra %s RO -> $f3" % hx("A.TXT"),
+               "closedir $ra", "closedir $rb", "closedir $s2", "close $f2", "close $f3", "closevol $va", "closevol $vb", "hasopen"]
+        env.add_script("idoff%03d" % j, path, (2, 4, 4), ops, offs[j % len(offs)], (), meta)
+
 def check_C07(run, replay=None):
     env = F.Env(run, "C07.v")
     if not env.ok:
@@ -890,6 +929,7 @@ def check_C07(run, replay=None):
                 "opendir $mr %s -> $mx" % fsgen.hx("A.TXT"), "delete $mr %s" % fsgen.hx("MISSING.X"), "delete $mr %s" % fsgen.hx("B.BIN")]
         env.add_script("mx%03d" % j, path, lim, ops, 5000, (), meta)
     corpus(env, rng, {"e5-name"})
+    two_volume_scripts(env, rng, 4 if run.tier == "quick" else 24)
     env.run_all(writes=True)
     bad = 0
     for sc in env.scripts:
@@ -1024,6 +1064,8 @@ def check_C08(run, replay=None):
                                       seek=1, query=2, flush=1, delete=1, mkdir=1, iter=3, label=2, remount=1, io=0))
     F.std_scenarios(env, rng, n, prof, nops=(30, 80), per_image=8, img_kw=dict(second_partition=True))
     corpus(env, rng, {"root-dir-stale-volume"})
+    id_offset_scripts(env, rng, 5 if run.tier == "quick" else 20)
+    two_volume_scripts(env, rng, 3 if run.tier == "quick" else 12)
     env.run_all()
     bad = 0
     for sc in env.scripts:
